@@ -612,18 +612,22 @@ func (tree *MutableTree) enableFastStorageAndCommitIfNotEnabled() (bool, error) 
 func (tree *MutableTree) enableFastStorageAndCommit() error {
 	var err error
 
-	// The fast index always describes the latest version (it is labelled with it below), also when
-	// the working tree has been loaded at an older version.
+	// The fast index always describes the latest committed version (it is labelled with it below):
+	// not the working tree, which may hold uncommitted changes, be positioned on an older version
+	// or, for a tree object that has not been loaded, be empty.
 	source := tree.ImmutableTree
 	if tree.version != 0 {
 		_, latestVersion, err := tree.ndb.getLatestVersion()
 		if err != nil {
 			return err
 		}
-		if latestVersion == 0 {
+		switch {
+		case latestVersion == 0:
 			// every version has been deleted: the index of an empty store is empty
 			source = &ImmutableTree{ndb: tree.ndb, skipFastStorageUpgrade: tree.skipFastStorageUpgrade}
-		} else if latestVersion != tree.version {
+		case latestVersion == tree.version && tree.lastSaved != nil:
+			source = tree.lastSaved
+		default:
 			if source, err = tree.GetImmutable(latestVersion); err != nil {
 				return err
 			}
@@ -976,8 +980,17 @@ func (tree *MutableTree) DeleteVersionsFrom(fromVersion int64) error {
 	// rebuilt here, as LoadVersionForOverwriting does: otherwise the next SaveVersion of this tree
 	// would add its changes to the stale entries and label the result as current.
 	if !tree.skipFastStorageUpgrade {
-		if _, err := tree.enableFastStorageAndCommitIfNotEnabled(); err != nil {
+		// A tree object that has not been loaded has no committed tree to build the index of a
+		// non-empty store from: the index stays marked as not built and the next LoadVersion
+		// rebuilds it.
+		_, latestVersion, err := tree.ndb.getLatestVersion()
+		if err != nil {
 			return err
+		}
+		if tree.version != 0 || latestVersion == 0 {
+			if _, err := tree.enableFastStorageAndCommitIfNotEnabled(); err != nil {
+				return err
+			}
 		}
 	}
 	return nil
